@@ -508,11 +508,14 @@ class FunctionParser(BaseParser):
         resolved = super().resolve_forward_refs(
             local_vars=local_vars, ignore_errors=ignore_errors
         )
-        if resolved:
-            if self.position_type:
-                self.position_type, r = resolve_forward_type(self.position_type)
-            if self.return_type:
-                self.return_type, r = resolve_forward_type(self.return_type)
+        return resolved
+
+    def resolve_extra_forward_types(self):
+        # called while the references are still evaluated (those of a local function are cleared afterwards)
+        if self.position_type:
+            self.position_type, r = resolve_forward_type(self.position_type)
+        if self.return_type:
+            self.return_type, r = resolve_forward_type(self.return_type)
 
     def wrap(
         self,
